@@ -371,6 +371,7 @@ pub fn run_contexts(out: &mut Out, cfg: &Cfg, seed: u64, n: usize) {
     let specials = ["-3", "+7", "-0.5", "1.5", "-", "+", "*", "?", "!", "a-b", "1-2", "x+1", "$", "$1", "007", "1e5", "...", "a.b", "3.", ".5",
                     "1 2", "1.5 2", "12 ", " 12", "- 3", "12\u{a0}", "1\u{2003}2", "1\t2", "+", "+ 7", "7+", "-.5", "5.", "0", "-0", "9223372036854775807", "9223372036854775808", "-9223372036854775808",
                     "$Ω", "$é1", "$_x", "$_", "\\,", "a\\,b", "\"1 2\"", "\"12\"", "a\\b", "OK\\, sure", "\\5", "1\\2", "x\\;y", "\\a",
+                    "(1)2", "[1]2", "(a)1", "1[2]", "1(2)3", "(1)", "(12)", "2(1)", "1\"a\"", "a\"b\"", "a\"b", "\"a\"b",
                     "$X + 1", "1 + 2", "$A * $B", "a - b", "6 / 3", "1.5 + $X",
                     "555-1234", "2023-01-05", "10+20", "1.5-2.5", "7-", "-7-", "1e-5", "3-a", "a-3", "--3", "+-3"];
     for i in 0..n {
